@@ -79,9 +79,11 @@ def L1(ctx):
             # `state.lock.take()` in post_acquire_read_lock / `match &mut state.lock` in release_read_lock
             cons = prog.borrow_consumer(w["fn"], w["bb"], w["idx"])
             ck = callee_path(cons[1]) if cons else None
-            if role == "read" and ck == "std::option::Option::<T>::take":
+            if role == "read":
+                # `state.lock.take()` + re-assignment, or `match &mut state.lock` updating the reader set in place: what may
+                # happen under which holder is decided by L1r on the lock-state scenarios
                 n += 1
-                ctx.ok("L1", fk + ":take", "holder moved out and re-assigned in the same step", [site_str(prog, w["fn"], w["bb"])])
+                ctx.ok("L1", fk + ":take", "holder inspected / moved out and re-assigned in the same step", [site_str(prog, w["fn"], w["bb"])])
             elif role == "rel_read":
                 n += 1
                 ctx.ok("L1", fk + ":readers", "reader set borrowed for removal", [site_str(prog, w["fn"], w["bb"])])
@@ -162,30 +164,23 @@ def _read_arms(ctx):
                 ctx.bad("L1r", "rt::rwlock::RwLock::post_acquire_read_lock", "a path takes the lock holder out of the state and returns without writing it "
                         "back: a failed try_read erases the writer's ownership and the next acquirer coexists with the writer",
                         site_str(prog, k, cons[0]), detail="restore")
-    # the Write arm leads to `return false` (success return unreachable)
+    # the Write arm leads to `return false`: in the scenario "the lock is held by a writer" - however the holder is inspected
+    # (match on `lock.take()`, on `&mut lock`, if-let chains) - no success return and no reader insertion is reachable
     rets = blocks_assigning_ret(body, lambda e: is_const_bool(e, True))
-
-    def a(body_, b, t, e):
-        if e[0] == "discr" and e[2] == "rt::rwlock::Locked":
-            # force the Write variant
-            for (val, tb) in t["targets"]:
-                if variant_of_discr_value(prog, e, val) == "Write":
-                    return {tb}
-            return {t["otherwise"]}
-        if e[0] == "discr" and e[2] == "std::option::Option" and "take" in canon(e):
-            for (val, tb) in t["targets"]:
-                if variant_of_discr_value(prog, e, val) == "Some":
-                    return {tb}
-            return {t["otherwise"]}
-        return None
-    reached, _ = PEval(body, a).run()
+    from .g_state import _scenario_assume
+    reached, _ = PEval(body, _scenario_assume(prog, k, RSTATE, "lock", "Some:Write", 0)).run()
+    r_read, _ = PEval(body, _scenario_assume(prog, k, RSTATE, "lock", "Some:Read", 0)).run()
+    r_none, _ = PEval(body, _scenario_assume(prog, k, RSTATE, "lock", "None", 0)).run()
     leaks = [b for b in rets if b in reached]
-    if ins and ok and rets and not leaks:
+    ins_w = [b for (b, t) in ins if b in reached]
+    grants = any(b in r_read for b in rets) and any(b in r_none for b in rets)
+    if ins and ok and rets and not leaks and not ins_w and grants:
         ctx.ok("L1r", "rt::rwlock::RwLock::post_acquire_read_lock", "readers inserted only from None|Read; Write holder => false",
                [site_str(prog, k, b) for (b, t) in ins])
     else:
         ctx.bad("L1r", "rt::rwlock::RwLock::post_acquire_read_lock", "a read lock can be granted while a writer holds the lock "
-                "(insert sites=%d, success reachable under Write=%s)" % (len(ins), bool(leaks)), fn.loc())
+                "(insert sites=%d, success reachable under Write=%s, reader inserted under Write=%s, granted from None and Read=%s)" %
+                (len(ins), bool(leaks), bool(ins_w), grants), fn.loc())
 
 
 def L2(ctx):
@@ -302,15 +297,27 @@ def L3(ctx):
         rels = [b for (b, t, c) in prog.sites(inst) if prog.callee_key(c) == rel]
         clear = [w for w in prog.writers().get((gadt, "data"), []) if w["fn"] == fk and w["kind"] == "assign"]
         dom = body.dominators()
-        good = bool(rels) and bool(clear)
-        for rb in rels:
-            if not any((w["bb"] in dom.get(rb, ())) for w in clear):
-                good = False
-        # the std guard itself is dropped (Drop terminator on self.data) before the release
+        # the std guard held in `self.data` is destroyed before the modelled release - by `self.data = None` (drop-and-replace:
+        # assignment + Drop terminator on the field) or by taking it out and dropping the taken value
+        def taken(e):
+            c = mentions_call(e, "std::option::Option::<T>::take") or mentions_call(e, "std::mem::take") or mentions_call(e, "std::mem::replace")
+            return c is not None and mentions_field(c, gadt, "data") is not None
         dropped = [b for b in range(body.n) if body.term(b)["k"] == "drop" and not body.blocks[b]["cleanup"] and
                    mentions_field(body.expr_of_place(body.term(b)["place"]), gadt, "data")]
+        took = []
+        for b in range(body.n):
+            t = body.term(b)
+            if body.blocks[b]["cleanup"]:
+                continue
+            if t["k"] == "drop" and taken(body.expr_of_place(t["place"])):
+                took.append(b)
+            if t["k"] == "call" and callee_path(t) == "std::mem::drop" and t["args"] and taken(body.expr_of_operand(t["args"][0])):
+                took.append(b)
+        good = bool(rels) and (bool(clear) or bool(took))
         for rb in rels:
-            if not any(d in dom.get(rb, ()) for d in dropped):
+            by_assign = any((w["bb"] in dom.get(rb, ())) for w in clear) and any(d in dom.get(rb, ()) for d in dropped)
+            by_take = any(d in dom.get(rb, ()) for d in took)
+            if not (by_assign or by_take):
                 good = False
         if good:
             ctx.ok("L3", fk, "inner std guard released before %s" % rel.split("::")[-1], [site_str(prog, fk, rels[0])])
